@@ -267,6 +267,16 @@ def make_donor(root, d, made):
         roots = pool()[0]
         parent = copy.deepcopy(resolve(roots[k0], path[:-1]))
         return resolve(parent, path[-1:]), parent
+    if k == 'edge_pair':
+        # two free copies put into one fresh store: the first touches only its start, the second only its end
+        from autobean_refactor.models.spacing import Whitespace
+        base = _mods()[1]
+        v1, v2 = copy.deepcopy(pool_node(d['ref'])), copy.deepcopy(pool_node(d['ref2']))
+        store = base.TokenStore.from_tokens([*v1.detach(), Whitespace.from_default(), *v2.detach()])
+        v1.reattach(store)
+        v2.reattach(store)
+        v = (v1, v2)[d['which']]
+        return v, v
     if k == 'edge_child':
         k0, anc_path, rel = d['ref']
         parent = copy.deepcopy(resolve(pool()[0][k0], anc_path))
@@ -508,7 +518,7 @@ def call(root, op, want_corr=True):
     # ---- state after
     T1 = list(store)
     rec = {'exn': type(exn).__name__ if exn else None, 'findings': findings, 'case': None,
-           'bad_donor': any(d['k'] in ('attached_doc', 'attached_pool') or (d['k'] in ('child_of_copy', 'edge_child') and not sp)
+           'bad_donor': any(d['k'] in ('attached_doc', 'attached_pool') or (d['k'] in ('child_of_copy', 'edge_child', 'edge_pair') and not sp)
                             for d, sp in zip(op.get('donors', []), spans)),
            'child_span': any(d['k'] in ('child_span', 'child_span_doc', 'child_of_copy') and v is not r and sp
                              for d, (v, r), sp in zip(op.get('donors', []), made, spans))}
@@ -777,11 +787,12 @@ def typed_donor(rng, root, parent, raw, T, want_bad):
 
 
 def edge_batch(rng, root, parent, raw, T=None):
-    """a batch of free copies with one attached value that touches one end of its store, at a random position"""
-    edge = pool()[2].get((type(parent).__name__, raw), [])
+    """a batch of free copies with one attached value that touches exactly one end of its store, at a random position"""
+    refs = pool()[1].get((type(parent).__name__, raw), [])
     if T is not None:
-        edge = [e for e in edge if isinstance(resolve(resolve(pool()[0][e[0]], e[1]), e[2]), T)]
-    if not edge:
+        refs = [r for r in refs if isinstance(pool_node(r), T)]
+    edge = pool()[2].get((type(parent).__name__, raw), [])
+    if not refs:
         return None
     m = rng.choice([1, 2, 2, 3])
     ds = []
@@ -790,7 +801,11 @@ def edge_batch(rng, root, parent, raw, T=None):
         if d is None:
             return None
         ds.append(d)
-    ds[rng.randrange(m)] = {'k': 'edge_child', 'ref': rng.choice(edge)}
+    if edge and rng.random() < 0.3:
+        bad = {'k': 'edge_child', 'ref': rng.choice(edge)}
+    else:
+        bad = {'k': 'edge_pair', 'ref': rng.choice(refs), 'ref2': rng.choice(refs), 'which': rng.randrange(2)}
+    ds[rng.randrange(m)] = bad
     return ds
 
 
